@@ -33,8 +33,8 @@ STUBS = ['ScriptedPeer per connection (counts open connections)',
          'fake wait_read over PipeSockets', 'virtual-time loop']
 ASSUMPTIONS = []
 CELL_BUDGET_S = {'quick': 240, 'thorough': 2400}
-SAMPLE_P = 0.003
-MAX_WITNESSES = 3
+SAMPLE_P = 0.02
+MAX_WITNESSES = 6
 MAX_DECISIONS = 60000
 
 
